@@ -47,6 +47,11 @@ def main(argv=None):
                     ev['coverage'].update(ev2); ev['violations'] = 1 if code == 1 else 0
             except Exception as y:
                 print("native fallback failed: %s" % y)
+            if code != 1 and prop in VALIDATOR_PROPS:
+                try:
+                    if validators_probe_fallback(prop, a.tier, seed): code = 1; ev['violations'] = 1
+                except Exception as y:
+                    print("validator-switch probe failed: %s" % y)
             fw = getattr(x, 'frame_write', None)
             if code != 1 and fw is not None:
                 try: sens = getattr(importlib.import_module('pvc.props.' + prop.lower()), 'FRAME_SENSITIVE', False)
@@ -68,6 +73,23 @@ def main(argv=None):
     with open(evidence_path, 'w') as f: json.dump(ev, f, indent=1, default=str)
     print("pvc %s tier=%s exit=%d wall=%.1fs evidence=%s" % (prop, a.tier, code, ev['wall_s'], os.path.relpath(evidence_path, HERE)))
     return code
+
+
+VALIDATOR_PROPS = ('C15', 'C18', 'C19', 'C20')      # properties whose statements rest on invariants validated on construction
+
+
+def validators_probe_fallback(prop, tier, seed):
+    """tree outside the engine's reach: the attrs-switch obligation (scan + native probe) is still decided on its own"""
+    from .source import Source
+    from .props.common import Ctx
+    from . import replay as RP
+    src = Source(); cx = Ctx(src, prop, tier); cx.seed = seed
+    cx.validators_always_run()
+    for r in cx.extra_violations:
+        path = RP.write_replays(prop, [r], src, cx)[0]
+        print("VIOLATION property=%s replay=%s obligation=%s%s" % (prop, path, r['name'], "" if r.get('replayed') else " no-failing-input-found"))
+        return True
+    return False
 
 
 def native_fallback(prop, tier, seed, reason):
@@ -131,6 +153,7 @@ def run(prop, tier, seed, a):
     cx = Ctx(src, prop, tier)
     cx.seed = seed
     tg = time.time()
+    if prop in VALIDATOR_PROPS: cx.validators_always_run()          # precondition of the attrs constructor contract (props/common.py)
     mod.obligations(cx)
     cx.cache_coherence()          # memo caches met on the explored paths (no obligations if there are none)
     from .nativeio import flush_differential
@@ -190,6 +213,8 @@ def run(prop, tier, seed, a):
             errors.append(v)
         for v in extra.get('undecided', []):
             undecided.append(dict(name=v['name'], status='undecided', detail=v.get('detail', ''), meta={}))
+    for v in cx.extra_violations: refuted.append(v)
+    for v in cx.extra_undecided: undecided.append(dict(name=v['name'], status='undecided', detail=v.get('detail', ''), meta={}))
     code = 0
     lines = []
     if errors or disagree: code = 3
